@@ -523,6 +523,10 @@ pub fn ip_resources(rng: &mut Rng, shape: &ResShape) -> IpResources {
                 };
                 blocks.push(b);
             }
+            // "in any insertion order": the builder side must not depend on it
+            if rng.bool() {
+                rng.shuffle(&mut blocks);
+            }
             IpResources::blocks(blocks.into_iter().collect::<IpBlocks>())
         }
     }
@@ -537,7 +541,7 @@ pub fn as_resources(rng: &mut Rng, shape: &ResShape) -> AsResources {
         ResShape::Missing => AsResources::missing(),
         ResShape::Inherit => AsResources::inherit(),
         ResShape::Blocks(ranges) => {
-            let blocks: Vec<AsBlock> = ranges
+            let mut blocks: Vec<AsBlock> = ranges
                 .iter()
                 .map(|&(lo, hi)| {
                     let (lo, hi) = (Asn::from_u32(lo as u32), Asn::from_u32(hi as u32));
@@ -548,6 +552,9 @@ pub fn as_resources(rng: &mut Rng, shape: &ResShape) -> AsResources {
                     }
                 })
                 .collect();
+            if rng.bool() {
+                rng.shuffle(&mut blocks);
+            }
             AsResources::blocks(blocks.into_iter().collect::<AsBlocks>())
         }
     }
